@@ -42,7 +42,11 @@ def rand_array(rng, kind=None):
          for _ in range(max(n, 1) if kind == "dtlist" else n)]
     if kind == "dtlist":
         return v, np.array(v, dtype="datetime64[us]")
-    return np.array(v, dtype="datetime64[us]"), np.array(v, dtype="datetime64[us]")
+    unit = rng.choice(["us", "us", "ns", "ms", "s"])
+    if unit in ("ms", "s"):
+        k = {"ms": 10 ** 3, "s": 10 ** 6}[unit]
+        v = [base + np.timedelta64((int((x - base).astype("int64")) // k) * k, "us") for x in v]
+    return np.array(v, dtype="datetime64[%s]" % unit), np.array(v, dtype="datetime64[us]")
 
 
 def rand_props(rng):
@@ -66,7 +70,8 @@ def rand_props(rng):
         elif t == "dt":
             out[k] = (datetime.datetime(2021, 3, 4, 5, 6, 7, rng.choice([0, 1, 517325, 999999])), "TimeStamp")
         elif t == "dt64":
-            out[k] = (np.datetime64("1850-01-02T03:04:05", "us") + np.timedelta64(rng.randrange(10 ** 6), "us"), "TimeStamp")
+            v = np.datetime64("1850-01-02T03:04:05", "us") + np.timedelta64(rng.randrange(10 ** 6), "us")
+            out[k] = (v.astype("datetime64[ns]") if rng.random() < 0.4 else v, "TimeStamp")
         elif t == "wrap":
             out[k] = (types.Uint16(65535), "Uint16")
         else:
@@ -360,6 +365,22 @@ def _split(path):
     return comps
 
 
+def _decode_path(ObjectPath, p):
+    try:
+        back = ObjectPath.from_string(p)
+    except Exception as e:
+        return "raised %r" % (e,)
+    return (back.group, back.channel)
+
+
+def _path_script(g, c):
+    return ("import sys\nfrom nptdms.common import ObjectPath\ng, c = %r, %r\n"
+            "p = str(ObjectPath(g, c) if c is not None else ObjectPath(g))\n"
+            "try:\n    b = ObjectPath.from_string(p); got = (b.group, b.channel)\n"
+            "except Exception as e:\n    got = repr(e)\n"
+            "print(p, got); sys.exit(0 if got == (g, c) else 1)\n" % (g, c))
+
+
 @runner("C16")
 def run_C16():
     from nptdms.common import ObjectPath
@@ -375,9 +396,9 @@ def run_C16():
     for g in names:
         p = str(ObjectPath(g))
         res.case(("g", g), True, {"group": g, "path": p} if g == "'/" else None)
-        back = ObjectPath.from_string(p)
-        if (back.group, back.channel) != (g, None):
-            res.violation("c16/group-round-trip", "%r -> %r -> %r" % (g, p, (back.group, back.channel)))
+        back = _decode_path(ObjectPath, p)
+        if back != (g, None):
+            res.violation("c16/group-round-trip", "%r -> %r -> %r" % (g, p, back), _path_script(g, None))
         if p in seen and seen[p] != (g, None):
             res.violation("c16/alias", "%r and %r -> %r" % (seen[p], (g, None), p))
         seen[p] = (g, None)
@@ -386,9 +407,9 @@ def run_C16():
         for c in short:
             p = str(ObjectPath(g, c))
             res.case(("gc", g, c), True)
-            back = ObjectPath.from_string(p)
-            if (back.group, back.channel) != (g, c):
-                res.violation("c16/pair-round-trip", "%r,%r -> %r -> %r" % (g, c, p, (back.group, back.channel)))
+            back = _decode_path(ObjectPath, p)
+            if back != (g, c):
+                res.violation("c16/pair-round-trip", "%r,%r -> %r -> %r" % (g, c, p, back), _path_script(g, c))
             if p in seen and seen[p] != (g, c):
                 res.violation("c16/alias", "%r and %r -> %r" % (seen[p], (g, c), p))
             seen[p] = (g, c)
@@ -402,10 +423,14 @@ def run_C16():
                        "".join(rng.choice(pool) for _ in range(rng.randint(0, 4)))))
         pairs = sorted(pairs)
         s = io.BytesIO()
-        with TdmsWriter(s) as w:
-            w.write_segment([ChannelObject(g, c, np.array([i], dtype=np.int32)) for i, (g, c) in enumerate(pairs)])
-        tf = TdmsFile.read(io.BytesIO(s.getvalue()))
         res.case(("e2e", tuple(pairs)), True)
+        try:
+            with TdmsWriter(s) as w:
+                w.write_segment([ChannelObject(g, c, np.array([i], dtype=np.int32)) for i, (g, c) in enumerate(pairs)])
+            tf = TdmsFile.read(io.BytesIO(s.getvalue()))
+        except Exception as e:
+            res.violation("c16/end-to-end-raised", "%r: %r" % (pairs, e))
+            continue
         for i, (g, c) in enumerate(pairs):
             try:
                 ch = tf[g][c]
